@@ -45,7 +45,7 @@ def _cases(tier, seed):
     yield {'privacy': 0, 'project': 'reexport_defaults'}
     yield {'privacy': 0, 'project': 'toc_sections', 'extra': ['--theme', 'readthedocs', '--sidebar-expand-depth', '1']}
     yield {'privacy': 0, 'project': 'cycle_and_nested'}
-    for k in ((0, 2) if tier == 'quick' else range(4)):
+    for k in ((0, 2, 4) if tier == 'quick' else range(5)):
         yield {'privacy': 0, 'project': 'kitchen', 'options': k}
     yield {'privacy': 0, 'project': 'summary_names'}
     yield {'privacy': 0, 'project': 'index_root'}
@@ -58,7 +58,8 @@ def _check(case):
     files = PROJECTS.get(case['project'], site.PROJECT_B)
     old_b, old_sets = site.PROJECT_B, site.PRIVACY_SETS
     site.PROJECT_B = files
-    case = dict(case, project='B')
+    if case['project'] != 'kitchen':
+        case = dict(case, project='B')
     try:
         return check_site(case, 'C11')
     finally:
